@@ -107,6 +107,13 @@ func mkTable(r *hutil.Rng, variant int, sepKeys bool) table {
 		for i := 1; i <= n; i++ {
 			t.setup = append(t.setup, fmt.Sprintf("INSERT INTO t_pair (a,b,v,w) VALUES (%d,'%s',%d,'%s')", (i+1)/2, []string{"x", "y"}[i%2], r.Intn(50), str(r.Intn(5))))
 		}
+	case 4:
+		t.name, t.pk = "t_rev", []int{0, 1}
+		t.cols = []ColMeta{{"a", "int", false}, {"b", "str", false}, {"v", "int", true}}
+		t.ddl = "CREATE TABLE t_rev (a INT NOT NULL, b VARCHAR(8) NOT NULL, v INT DEFAULT NULL, PRIMARY KEY (b, a))"
+		for i := 1; i <= n; i++ {
+			t.setup = append(t.setup, fmt.Sprintf("INSERT INTO t_rev (a,b,v) VALUES (%d,'%s',%d)", (i+1)/2, []string{"x", "y"}[i%2], r.Intn(50)))
+		}
 	default:
 		t.name, t.pk = "t_kv", []int{0}
 		t.cols = []ColMeta{{"k", "int", false}, {"v", "int", false}}
@@ -518,7 +525,7 @@ func genInsert(r *hutil.Rng, t *table, o stmtOpt) (string, StmtMeta) {
 // statement's own WHERE text.
 func buildScenario(r *hutil.Rng, i int, stream string, prop string) (atrun.Scenario, Meta) {
 	g0 = &genState{}
-	variant := r.Intn(4)
+	variant := r.Intn(5)
 	pred := ""
 	if strings.HasPrefix(stream, "finding:") {
 		pred = strings.TrimPrefix(stream, "finding:")
@@ -526,7 +533,10 @@ func buildScenario(r *hutil.Rng, i int, stream string, prop string) (atrun.Scena
 			variant = 0
 		}
 	}
-	t := mkTable(r, variant, false)
+	if pred == "lockkey.separator" {
+		variant = 1
+	}
+	t := mkTable(r, variant, pred == "lockkey.separator")
 	onlyCare := r.Chance(1, 2)
 	sc := atrun.Scenario{Name: fmt.Sprintf("%s-%s-%d", prop, strings.ReplaceAll(stream, ":", "-"), i), Setup: append([]string{t.ddl}, t.setup...)}
 	sc.Config.OnlyCareUpdateColumns = &onlyCare
@@ -583,7 +593,7 @@ func buildScenario(r *hutil.Rng, i int, stream string, prop string) (atrun.Scena
 		default:
 			sql, sm = genInsert(r, &t, o)
 		}
-		if o.insMode == "null-pk" || o.insMode == "zero-pk" || o.insMode == "auto-batch" {
+		if o.insMode == "null-pk" || o.insMode == "zero-pk" || o.insMode == "auto-batch" || pred == "lockkey.separator" {
 			sm.Pred = pred
 		}
 		if stream == "malformed" && special && !o.pkChange && o.insMode == "" {
